@@ -6,6 +6,7 @@
 #include "snoopy.h"
 #include "util/string-snoopy.h"
 void harness(void){
+  verif_ghost_init();
   size_t bufSize = nondet_size_t(); __CPROVER_assume(bufSize >= 1 && bufSize <= 1048577);
   char *dest = malloc(bufSize);
   size_t dl = nondet_size_t(); __CPROVER_assume(dl < bufSize);
